@@ -87,14 +87,19 @@ pub fn check_c11(check: &str, category: &str, f: &Findings, st: &mut Stats) -> V
     for s in &parsed.sections {
         *sec_count.entry(s.as_str()).or_insert(0) += 1;
     }
-    for (name, _) in f {
+    for (name, files) in f {
+        // a key with an empty file vector has no finding: its section must not appear
+        if files.is_empty() {
+            st.count("patterns_with_empty_file_vector");
+            continue;
+        }
         if sec_count.get(name.as_str()).copied().unwrap_or(0) != 1 {
             out.push(Violation::new(check, format!("{category}:section-missing-or-repeated"), format!("section of {name} appears {} times", sec_count.get(name.as_str()).copied().unwrap_or(0)), case.clone()));
             return out;
         }
     }
     for (s, _) in &sec_count {
-        if !f.iter().any(|(n, _)| n == s) {
+        if !f.iter().any(|(n, files)| n == s && !files.is_empty()) {
             out.push(Violation::new(check, format!("{category}:section-without-findings"), format!("section of {s} is present although it has no finding"), case.clone()));
             return out;
         }
@@ -123,7 +128,7 @@ pub fn check_c12(check: &str, category: &str, f: &Findings, st: &mut Stats) -> V
             }
         }
         "vulnerabilities" => {
-            let sev_present: Vec<&str> = ["High", "Medium", "Low"].into_iter().filter(|s| f.iter().any(|(n, _)| report::severity_of(n) == Some(*s))).collect();
+            let sev_present: Vec<&str> = ["High", "Medium", "Low"].into_iter().filter(|s| f.iter().any(|(n, files)| !files.is_empty() && report::severity_of(n) == Some(*s))).collect();
             if sev_present.len() < 3 || multi {
                 st.nontrivial(&(category, format!("{:?}", f)));
             }
